@@ -88,7 +88,8 @@ def byz_request(tape):
     if k == 5:
         line = tape.pick("reqline", [b"FOO / HTTP/1.1", b"GET / HTTP/2.0", b"GET /", b"GET", b"", b" / HTTP/1.1", b"GET / HTTP/1.1 extra",
                                      b"GET  /  HTTP/1.1", b"get / http/1.1", b"GET / HTTP/1.", b"GET / FTP/1.1", b"\x00\x01\x02", b"GET /\xff HTTP/1.1"])
-        return line + b"\r\nHost: x\r\n\r\n", "request-line"
+        definite = line in (b"GET /", b"GET", b" / HTTP/1.1", b"GET / FTP/1.1", b"\x00\x01\x02", b"get / http/1.1")
+        return line + b"\r\nHost: x\r\n\r\n", "request-line-definite" if definite else "request-line"
     if k == 6:
         body = tape.pick("badbody", [b"\xff\xfe\xfd\xfc", b"\x80abc", b"{\"a\":", b"\xc3\x28"])
         ct = tape.pick("ct", [b"", b"Content-Type: application/json\r\n", b"Content-Type: text/plain; charset=utf-8\r\n"])
@@ -193,8 +194,11 @@ def server_case(tape, tier, res):
     cfg = dict(mode="server", bare=bare, plan=[dict(tag=p["tag"], end=p["end"], frags=[f[:80].decode("latin1") for f in p["frags"]][:8],
                                                      total=sum(len(f) for f in p["frags"])) for p in plan], nsib=nsib)
     raised = []
-    with netlab.Lab(tape, res, wirelog=False, rates=dict(short=tape.pick("r_short", [0, 4, 10]))) as lab:
+    # enough client ports that no byzantine connection comes from an address the server still holds a connection for
+    # (a replaced connection keeps its old Requestant in hio's http Server: DESIGN 6.4, outside the listed properties)
+    with netlab.Lab(tape, res, wirelog=False, rates=dict(short=tape.pick("r_short", [0, 4, 10])), ports=tuple(range(50001, 50033))) as lab:
         net = lab.net
+        net.fresh_ports = True
         net.current_owner = "server"
         tymth = lambda: 0.0
         if bare:
@@ -210,8 +214,9 @@ def server_case(tape, tier, res):
         sib_sent = 0
         sib_every = 1 + tape.draw("sib_every", 4)
         reads_while_inflight = 0
+        ignored = []
         steps = 0
-        maxsteps = 40 + 12 * sum(len(p["frags"]) for p in plan) + 10 * nsib
+        maxsteps = 40 + 16 * sum(len(p["frags"]) for p in plan) + 10 * nsib
         while steps < maxsteps:
             steps += 1
             res.steps += 1
@@ -238,8 +243,11 @@ def server_case(tape, tier, res):
                         p["end"] = "done"
                     p.setdefault("linger", 0)
                     p["linger"] += 1
-                    if byz.closed_seen or p["linger"] > 6:
+                    if byz.closed_seen or p["linger"] > 10:
                         if not byz.closed_seen:
+                            if p["tag"] == "request-line-definite" and p["end"] == "none" and not byz.rx:
+                                # the statement: malformed input closes, or is answered with an error on, that connection
+                                ignored.append(p["frags"][0][:40])
                             byz.close()
                         byz = None
                         bi += 1
@@ -300,7 +308,10 @@ def server_case(tape, tier, res):
                         ok = False
                     if bare and (b"/sib%d" % i) not in r["body"]:
                         ok = False
-            if not ok:
+            if ignored:
+                res.violate("malformed-request-ignored", "a request with the unusable request line %r was neither answered nor was its "
+                            "connection closed within 10 service rounds" % (bytes(ignored[0]),))
+            elif not ok:
                 res.violate("sibling-not-served", "the well-behaved connection got %d of %d correct responses (parse error %s, closed %s); "
                             "byzantine kinds %s" % (len(resp), nsib, err, sib.closed_seen, [p["tag"] for p in plan]))
             else:
